@@ -149,9 +149,9 @@ def is_plain_str(s):
 
 
 KINDS = {
-    "docstring": ["int", "float", "str", "bool", "optint", "optstr", "optbool", "optfloat", "literal", "list", "union", "dotted", "nested"],
+    "docstring": ["int", "float", "str", "bool", "optint", "optstr", "optbool", "optfloat", "literal", "optliteral", "list", "union", "dotted", "nested"],
     "common": ["int", "float", "str", "bool", "optint", "optstr", "optbool", "optfloat", "literal"],
-    "executable": ["int", "float", "str", "bool", "optint", "optstr", "optbool", "optfloat", "literal", "list", "union", "nested"],
+    "executable": ["int", "float", "str", "bool", "optint", "optstr", "optbool", "optfloat", "literal", "optliteral", "list", "union", "nested"],
     "json": ["int", "float", "str", "bool", "optint", "optstr", "optbool", "optfloat", "literal", "optliteral", "dict", "jlist", "optdict", "optlist"],
 }
 KINDS["signature"] = KINDS["docstring"]
